@@ -38,6 +38,9 @@ type c13Scenario struct {
 	Mitigate bool   `json:"mitigate"` // rollback mitigation on (Layer B: real client on an in-process simulated node)
 	DelayMs  int    `json:"delay_ms"` // rebalance delay
 	SlowMs   int    `json:"slow_ms"`  // how long the blocked store / consumer / OpenStream stays blocked after Close was called
+	// OldServer: the server is 5.0.0 (< 5.5.0: the library closes streams one at a time and relies on the stream-end
+	// notification that follows each close)
+	OldServer bool `json:"old_server,omitempty"`
 }
 
 type c13Result struct {
@@ -124,7 +127,14 @@ func c13Child(raw json.RawMessage) any {
 			<-ch
 		}
 	}
-	d := godcp.VerifNewDcp(cfg, client, cons, &couchbase.Version{Major: 7, Minor: 6}, &couchbase.BucketInfo{BucketType: "membase"})
+	version := &couchbase.Version{Major: 7, Minor: 6}
+	if sc.OldServer {
+		version = &couchbase.Version{Major: 5, Minor: 0}
+		cl.mu.Lock()
+		cl.endOnClose = true // every close is followed by STREAM_END(closed), as the node / gocbcore do
+		cl.mu.Unlock()
+	}
+	d := godcp.VerifNewDcp(cfg, client, cons, version, &couchbase.BucketInfo{BucketType: "membase"})
 	d.SetMetadata(fm)
 	d.SetEventHandler(hand)
 	cfg.Dcp.Group.Membership.TotalMembers = 16 / sc.NVb // static membership: member 1 of T owns the first NVb vBuckets
@@ -446,6 +456,7 @@ func c13Gen(rt *rapid.T) c13Scenario {
 	if sc.State == "gate_blocked" {
 		sc.Mitigate = true
 	}
+	sc.OldServer = rapid.IntRange(0, 3).Draw(rt, "oldserver") == 0
 	if sc.Mitigate {
 		sc.Health = false // the real client's Ping needs a management endpoint the simulated node does not offer
 		if sc.State == "rebalance_reopen" {
@@ -507,6 +518,9 @@ func TestC13_Shutdown(t *testing.T) {
 		}
 		if scs[i].Signal {
 			labs = append(labs, "sigterm")
+		}
+		if scs[i].OldServer && scs[i].NVb >= 2 {
+			labs = append(labs, "serial_close_server")
 		}
 		record("C13", scs[i], scs[i].State != "idle", labs...)
 	}
